@@ -462,6 +462,103 @@ def graph_stage(rng, tier, res):
     res.count("graph-heaps", len(lines))
 
 
+def nd_graph_stage(rng, tier, res):
+    """Tie B for `Impl.G.ndVisit` (the nondeterministic traversal on containers that refer to each other): random heaps
+    with cycles and sharing, small limits, the three `random` functions scripted (random choices, recorded); the real
+    generator `_nondeterministic_visit` and the model must visit the same (location, object) sequence and end the same
+    way, for the same script.  Plus the two scripts of the D30 theorems on the real code: queue-first is slow, the
+    'grandchildren first' script of `C18_ndgraph_d30_fast` raises after about 1.5 * limit nodes."""
+    import jsonpath_rfc9535 as jp
+    from jsonpath_rfc9535.node import JSONPathNode
+
+    lines, expect = [], []
+    for _ in range(80 if tier != "thorough" else 800):
+        objs = random_heap(rng, rng.randint(1, 4))
+        ids = {id(o): i for i, o in enumerate(objs)}
+        ents = []
+        for i, o in enumerate(objs):
+            kids = []
+            for k, c in (o.items() if isinstance(o, dict) else enumerate(o)):
+                kids.append(f"({k if isinstance(k, int) else wire.enc_str(k)} {ids[id(c)] if isinstance(c, (dict, list)) else 's'})")
+            ents.append(f"({i} {'D' if isinstance(o, dict) else 'L'} {' '.join(kids)})" if kids else f"({i} {'D' if isinstance(o, dict) else 'L'})")
+        heap = "(heap " + " ".join(ents) + ")"
+        lim = rng.choice([1, 2, 3, 4])
+        cls = type("E", (jp.JSONPathEnvironment,), {"max_recursion_depth": lim, "nondeterministic": True})
+        env = cls()
+        seg = env.compile("$..*").segments[0]
+        root = objs[0]
+        got, tail = [], "end"
+        ch = chooser.Chooser((), rng=_random.Random(rng.random()))
+        try:
+            with chooser.scripted(ch):
+                for nd in seg._nondeterministic_visit(JSONPathNode(value=root, location=(), root=root)):
+                    got.append(wire.enc_loc(nd.location) + "@" + (str(ids[id(nd.value)]) if isinstance(nd.value, (dict, list)) else "s"))
+                    if len(got) > 4000:
+                        tail = "too-many"
+                        break
+        except jp.JSONPathRecursionError:
+            tail = "err JSONPathRecursionError"
+        except RecursionError:
+            tail = "err PY:RecursionError"
+        except AttributeError as err:
+            res.notes.append(f"_nondeterministic_visit entry point not reachable: {err!r}")
+            return
+        res.evaluations += 1
+        if tail == "too-many":
+            res.count("nd-graph-too-many-skipped")
+            continue
+        res.nontrivial.add(("nd-graph", lim, heap, ch.wire()))
+        lines.append(f"g.ndvisit\t{lim}\t100000\t0\t{heap}\t{ch.wire()}")
+        expect.append(("visited\t" + " ".join(got) + "\t" + tail, lim, heap, ch.wire()))
+        if tail not in ("end", "err JSONPathRecursionError"):
+            res.violations.append({"property": "C18", "query": "$..*", "document": heap, "observed": tail, "script": ch.wire(),
+                                   "expected": "completion or JSONPathRecursionError", "what": f"nondeterministic mode, containers referring to each other, limit {lim}"})
+    # D30's heap under the two scripts the theorems are about, on the real code
+    a = []
+    a.append(a)
+    a.append(a)
+    for lim, script_kind in ((12, "queue-first"), (12, "fast"), (100, "fast")):
+        cls = type("E", (jp.JSONPathEnvironment,), {"max_recursion_depth": lim, "nondeterministic": True})
+        seg = cls().compile("$..*").segments[0]
+
+        class Fixed(chooser.Chooser):
+            def _pick(self, n):
+                # coin: alternative 0 is True; merge: the LAST interleaving takes every new entry first
+                k = (0 if n == 2 else n - 1) if script_kind == "fast" else (1 if n == 2 else 0)
+                self.trace.append((n, k))
+                return k
+
+        ch = Fixed()
+        got, tail = [], "end"
+        try:
+            with chooser.scripted(ch):
+                for nd in seg._nondeterministic_visit(JSONPathNode(value=a, location=(), root=a)):
+                    got.append(wire.enc_loc(nd.location) + "@0")
+                    if len(got) > 20000:
+                        tail = "too-many"
+                        break
+        except jp.JSONPathRecursionError:
+            tail = "err JSONPathRecursionError"
+        except AttributeError:
+            return
+        res.evaluations += 1
+        if tail != "too-many":
+            lines.append(f"g.ndvisit\t{lim}\t100000\t0\t(heap (0 L (0 0) (1 0)))\t{ch.wire()}")
+            expect.append(("visited\t" + " ".join(got) + "\t" + tail, lim, "D30 heap", script_kind))
+        res.count(f"d30-{script_kind}-limit-{lim}-nodes", len(got))
+        if script_kind == "fast" and (tail != "err JSONPathRecursionError" or len(got) > 3 * (lim // 2) + 2):
+            res.mismatches.append({"op": "g.ndvisit", "what": "C18_ndgraph_d30_fast: the real traversal under the grandchildren-first script", "limit": lim,
+                                   "real": f"{tail} after {len(got)} nodes", "model": f"JSONPathRecursionError after at most {3 * (lim // 2) + 2} nodes"})
+        if script_kind == "queue-first" and len(got) + 1 < 2 ** ((lim + 1) // 2):
+            res.mismatches.append({"op": "g.ndvisit", "what": "C18_ndgraph_d30_lower: the real traversal under a queue-first script", "limit": lim,
+                                   "real": f"{tail} after {len(got)} nodes", "model": f"at least {2 ** ((lim + 1) // 2) - 1} nodes before the error"})
+    out = model.run_batch_parallel(lines)
+    for (want, lim, heap, script), o in zip(expect, out):
+        if o != want:
+            res.mismatches.append({"op": "g.ndvisit", "limit": lim, "heap": heap, "script": script, "model": o[:300], "real": want[:300]})
+    res.count("nd-graph-heaps", len(lines))
+
+
 def explore_c18_nd(rng, tier, res, deep=False):
     import jsonpath_rfc9535 as jp
 
@@ -531,6 +628,8 @@ def explore_c18_nd(rng, tier, res, deep=False):
     # (2b) random heaps of containers that refer to each other (cycles, shared substructure, fan-out 0..3) against
     # the graph model Impl.G.visitTop: same sequence of visited nodes (locations), same outcome, for limits 1..6
     graph_stage(rng, tier, res)
+    # (2c) the same for the nondeterministic traversal against Impl.G.ndVisit, per script
+    nd_graph_stage(rng, tier, res)
     # (3) cyclic data, nondeterministic mode
     nd_cls = type("N", (jp.JSONPathEnvironment,), {"nondeterministic": True})
     for name, doc in cyclic_docs()[:5]:
